@@ -36,7 +36,7 @@ Record rlocal := mkLocal {
   l_tok : option (Z * consumer * arg);      (* response: consumer taken from the map, not yet invoked *)
   l_hit : bool;                             (* response: the id was outstanding *)
   l_done : bool;                            (* response: done := len(outstanding) == 0 *)
-  l_cb : bool;                              (* response/fire: a callback to run was read *)
+  l_cb : bool;                              (* response/fire: there is a callback this call has to run *)
   l_msgs : list (Z * body)                  (* fire: drained queue *)
 }.
 Definition local0 : rlocal := mkLocal 0 false None false false false [].
@@ -160,7 +160,7 @@ Definition r_check (v : variant) (r : nat) (s : state) : state * list event :=
     let cb := on_all s in
     let on' := match v with Impl => cb | Spec => if done then false else cb end in
     (set_local (mkSt (seqc s) (outstanding s) (queue s) (fired s) on' (proto_ok s) (locals s)) r
-               (mkLocal (l_id l) (l_fired l) (l_tok l) true done cb (l_msgs l)), [])
+               (mkLocal (l_id l) (l_fired l) (l_tok l) true done (done && cb) (l_msgs l)), [])
   else (s, []).
 
 Definition r_complete (r : nat) (s : state) : state * list event :=
@@ -176,7 +176,7 @@ Definition f_fire (v : variant) (r : nat) (s : state) : state * list event :=
   let empty := match queue s with [] => true | _ => false end in
   let on' := match v with Impl => true | Spec => negb empty end in
   (set_local (mkSt (seqc s) (outstanding s) [] true on' (proto_ok s) (locals s)) r
-             (mkLocal (l_id l) (l_fired l) (l_tok l) (l_hit l) (l_done l) empty (queue s)), [EFire]).
+             (mkLocal (l_id l) (l_fired l) (l_tok l) false false empty (queue s)), [EFire]).
 
 Definition f_flush (r : nat) (s : state) : state * list event :=
   let l := get_local s r in
